@@ -182,8 +182,8 @@ def run(ctx):
                     visit(ch)
                 if isinstance(x, ast.Call):
                     fn = norm(x.func)
-                    if fn.startswith("parse_") or fn in ("_invoke", "_call", "_deref", "invoke",
-                                                         "deref_or_invoke", "deref_or_call_or_invoke"):
+                    if isinstance(x.func, ast.Name) and fn in parser.funcs and "lexer" in parser.funcs[fn].params \
+                            and not fn.startswith("at_"):
                         order.append(("parse", x))
                     elif fn in ("lexer.getPos", "lexer.getPosNext"):
                         order.append(("pos", x))
@@ -207,8 +207,7 @@ def run(ctx):
     # the last cursor event before the read was a sub-parse (not a match / next of this construct's own token), the
     # value read is the position of the operand's last token
     from ..cfg import CFG
-    PARSE_HELPERS = {"_invoke", "_call", "_deref", "invoke", "deref_or_invoke", "deref_or_call_or_invoke",
-                     "collect_predicate_min_max_exact"}
+    PARSE_HELPERS = set()
     lexer_funcs = {fn.name for fn in parser.funcs.values() if "lexer" in fn.params}
 
     def cursor_events(a):
